@@ -69,7 +69,7 @@ pub trait Caps {
     fn into_child(self: Box<Self>) -> Result<Box<dyn Caps>, Box<dyn Caps>>;
     /// ob_try(self, fail): outer Err = not available; inner Err = the call failed (nothing comes back)
     fn try_child(self: Box<Self>, fail: bool) -> Result<Result<Box<dyn Caps>, ()>, Box<dyn Caps>>;
-    fn kid_owned(&self) -> Option<Box<dyn Caps>> {
+    fn kid_owned(&self, pinned: bool) -> Option<Box<dyn Caps>> {
         None
     }
     fn kid_ref(&self, sel: i64, m: &str, a: i64) -> Option<i64> {
@@ -174,8 +174,8 @@ macro_rules! ob_consume {
 }
 macro_rules! kid_caps {
     () => {
-        fn kid_owned(&self) -> Option<Box<dyn Caps>> {
-            Some(Box::new(HRa(self.0.kid_owned())))
+        fn kid_owned(&self, pinned: bool) -> Option<Box<dyn Caps>> {
+            Some(Box::new(HRa(if pinned { unsafe { std::pin::Pin::new_unchecked(&self.0) }.kid_owned_pin() } else { self.0.kid_owned() })))
         }
         fn kid_ref(&self, sel: i64, m: &str, a: i64) -> Option<i64> {
             // sel 0: the fixed accessor; 1, 2: the selecting accessor asked for the first / second inner value
@@ -897,7 +897,8 @@ impl World {
                 let y = e["y"].as_u64().unwrap() as usize - 1;
                 let id = self.be.next_id();
                 let s = self.slots[x].as_ref().unwrap();
-                let o = ledger::track(|| s.obj.kid_owned()).expect("kid_owned not available");
+                let pinned = e["via"] == "pin";
+                let o = ledger::track(|| s.obj.kid_owned(pinned)).expect("kid_owned not available");
                 let meta = Meta { kind: "box".into(), t: "obj".into(), tr: "Ra".into(), req: vec![], inst: id, ctx: s.meta.ctx };
                 self.slots[y] = Some(Slot { meta, obj: o });
                 self.last = ok;
